@@ -84,6 +84,55 @@ type gspec struct {
 	EntrySpell int
 	IDs    []string // optional "id" per node ("" none)
 	NoDecoys bool
+	Breaks   map[int]int // edge index (or -1: entry refs to N0, -10-k: chain hop k) -> break mode
+}
+
+// break modes: how a reference is made unresolvable
+const (
+	brkNone = iota
+	brkNoPointer // the pointer leads nowhere
+	brkNoDoc     // the document does not exist
+	brkString    // the target is a string
+	brkNumber
+	brkBool
+	brkArray
+	brkNull // (not in C08's list: used by C04 only)
+	nBreaks
+)
+
+var breakNames = []string{"ok", "pointer-nowhere", "document-missing", "target-string", "target-number", "target-boolean", "target-array", "target-null"}
+
+// breakRef rewrites a (correct) reference so that it is unresolvable in the given way.
+func breakRef(ref string, mode int) string {
+	docPart, _ := ref, ""
+	if i := strings.Index(ref, "#"); i >= 0 {
+		docPart = ref[:i]
+	}
+	switch mode {
+	case brkNoPointer:
+		return docPart + "#/definitions/Missing"
+	case brkNoDoc:
+		frag := ""
+		if i := strings.Index(ref, "#"); i >= 0 {
+			frag = ref[i:]
+		}
+		if docPart == "" {
+			return "missing.json" + frag
+		}
+		j := strings.LastIndex(docPart, "/")
+		return docPart[:j+1] + "missing.json" + frag
+	case brkString:
+		return docPart + "#/x-bad/S"
+	case brkNumber:
+		return docPart + "#/x-bad/N"
+	case brkBool:
+		return docPart + "#/x-bad/B"
+	case brkArray:
+		return docPart + "#/x-bad/A"
+	case brkNull:
+		return docPart + "#/x-bad/Z"
+	}
+	return ref
 }
 
 var entryNames = []string{"definition", "parameter", "response", "pathitem", "param-chain", "response-chain", "pathitem-chain", "all"}
@@ -280,7 +329,7 @@ func (g *gspec) build() *built {
 		es := byFrom[i]
 		used := map[int]bool{}
 		for _, e := range es {
-			ref := obj("$ref", g.refTo(src, e.To, e.Spell))
+			ref := obj("$ref", breakRef(g.refTo(src, e.To, e.Spell), g.Breaks[g.edgeIndex(e)]))
 			form := e.Form
 			single := form == formItems || form == formNot || form == formAdditionalProperties || form == formAdditionalItems || form == formBare
 			if form == formBare && len(es) > 1 {
@@ -363,7 +412,9 @@ func (g *gspec) build() *built {
 	}
 	// entry elements
 	rootURL := docURLs[0]
-	n0 := func(from string) map[string]interface{} { return obj("$ref", g.refTo(from, 0, g.EntrySpell)) }
+	n0 := func(from string) map[string]interface{} {
+		return obj("$ref", breakRef(g.refTo(from, 0, g.EntrySpell), g.Breaks[-1]))
+	}
 	member := func(d map[string]interface{}, k string) map[string]interface{} {
 		m, ok := d[k].(map[string]interface{})
 		if !ok {
@@ -398,12 +449,12 @@ func (g *gspec) build() *built {
 				el = mk(du)
 			} else {
 				nd := docURLs[g.Chain[h+1].Doc]
-				el = obj("$ref", spell(du, nd, fragFor([]string{section, name + strconv.Itoa(h+2)}, false), g.Chain[h+1].Spell))
+				el = obj("$ref", breakRef(spell(du, nd, fragFor([]string{section, name + strconv.Itoa(h+2)}, false), g.Chain[h+1].Spell), g.Breaks[-10-(h+1)]))
 			}
 			member(d, section)[name+strconv.Itoa(h+1)] = el
 		}
 		first := docURLs[g.Chain[0].Doc]
-		return obj("$ref", spell(rootURL, first, fragFor([]string{section, name + "1"}, false), g.Chain[0].Spell))
+		return obj("$ref", breakRef(spell(rootURL, first, fragFor([]string{section, name + "1"}, false), g.Chain[0].Spell), g.Breaks[-10]))
 	}
 	addParam := func() { member(root, "parameters")["P"] = chainOf("parameters", "P", bodyParam) }
 	addResp := func() { member(root, "responses")["R"] = chainOf("responses", "R", resp) }
@@ -439,6 +490,13 @@ func (g *gspec) build() *built {
 	}
 	if g.Entry != entDefinition && g.Entry != entAll && g.Place[0] == 0 {
 		// N0 is a root definition anyway: fine, it is one more root element
+	}
+	if len(g.Breaks) > 0 {
+		for _, d := range docs {
+			if _, isSwaggerOrDefs := d["title"]; !isSwaggerOrDefs {
+				d["x-bad"] = obj("S", "str", "N", num("5"), "B", true, "A", arr(num("1")), "Z", nil)
+			}
+		}
 	}
 	if !g.NoDecoys {
 		addDecoys(docs, rootURL)
@@ -494,6 +552,22 @@ func (g *gspec) features() map[string]string {
 		}
 	}
 	f["ids"] = strings.Join(ids, ",")
+	var bk []string
+	var keys []int
+	for k := range g.Breaks {
+		keys = append(keys, k)
+	}
+	sort.Ints(keys)
+	for _, k := range keys {
+		where := "edge" + strconv.Itoa(k)
+		if k == -1 {
+			where = "entry"
+		} else if k <= -10 {
+			where = "hop" + strconv.Itoa(-10-k)
+		}
+		bk = append(bk, where+":"+breakNames[g.Breaks[k]])
+	}
+	f["breaks"] = strings.Join(bk, ",")
 	return f
 }
 
@@ -596,8 +670,23 @@ func baseSpec(n, mask int) *gspec {
 	return g
 }
 
+func (g *gspec) edgeIndex(e gedge) int {
+	for i, x := range g.Edges {
+		if x.From == e.From && x.To == e.To {
+			return i
+		}
+	}
+	return -100
+}
+
 func (g *gspec) clone() *gspec {
 	c := *g
+	if g.Breaks != nil {
+		c.Breaks = map[int]int{}
+		for k, v := range g.Breaks {
+			c.Breaks[k] = v
+		}
+	}
 	c.Edges = append([]gedge{}, g.Edges...)
 	c.Place = append([]int{}, g.Place...)
 	c.Shape = append([]int{}, g.Shape...)
